@@ -4,7 +4,8 @@
    are the ones [c09_holds] evaluates on the implementation's observations. *)
 From Boltons Require Import Lib.Prelude Spec.C09_Spec Model.C09_Model.
 From Boltons Require Import Proofs.C09_Strip Proofs.C09_Chunked Proofs.C09_Split Proofs.C09_Group.
-From Boltons Require Import Proofs.C09_Windowed Proofs.C09_Ranges Proofs.C09_Redundant.
+From Boltons Require Import Proofs.C09_Windowed Proofs.C09_Ranges Proofs.C09_Redundant Proofs.C09_WsLaws.
+From Boltons Require Import Model.C09_PyRanges Proofs.C09_PyRangesProof Gen.C09_Gen Proofs.C09_GenTie.
 
 (* ======================= chunked / chunked_iter ========================== *)
 (* for every input, every size >= 1 and every fill: the generator terminates
@@ -286,3 +287,52 @@ Example C09_chunk_ranges_ex :
   /\ m_chunk_ranges 10 5 10 2 false = Ok [(10, 15); (13, 18); (16, 20)]%Z
   /\ valid_ranges_params 15 5 3 1 = true.
 Proof. repeat split; reflexivity. Qed.
+
+(* ============= split with sep=None: laws of the whitespace reference ======= *)
+(* pieces are never empty; without maxsplit they contain no separator and their
+   concatenation is the input minus separators; at most maxsplit cuts; whatever
+   maxsplit, no non-separator is lost or reordered *)
+Theorem C09_split_none_conserves :
+  forall isws l,
+    concat (py_split_ws isws None l) = filter (fun x => negb (isws x)) l
+    /\ Forall (fun g => g <> [] /\ forallb (fun x => negb (isws x)) g = true) (py_split_ws isws None l)
+    /\ (forall m, Forall (fun g => g <> []) (py_split_ws isws m l))
+    /\ (forall k, length (py_split_ws isws (Some k) l) <= S k)
+    /\ (forall m, filter (fun x => negb (isws x)) (concat (py_split_ws isws m l))
+                  = filter (fun x => negb (isws x)) l).
+Proof. exact py_split_ws_laws. Qed.
+Print Assumptions C09_split_none_conserves.
+
+(* ============= (T) the SOURCE of chunk_ranges, translated on every run ====== *)
+(* coq/Gen/C09_Gen.v is regenerated from /repo/boltons/iterutils.py by
+   harness/translators/c09_ranges.py; it must be the program the theorems below
+   were proved about *)
+Theorem C09_chunk_ranges_source_unchanged : gen_chunk_ranges_prog = expected_prog.
+Proof. exact gen_is_expected. Qed.
+Print Assumptions C09_chunk_ranges_source_unchanged.
+
+(* running the translated source (deep embedding + interpreter of
+   Model/C09_PyRanges.v) gives, for ALL integer arguments, exactly what the
+   hand-written model gives - including the ValueError / ZeroDivisionError
+   outcomes of invalid parameters *)
+Theorem C09_chunk_ranges_source_is_model :
+  forall size chunk offset overlap align,
+    run_generator (fuel_for size) gen_chunk_ranges_prog (env0 size chunk offset overlap align)
+    = m_chunk_ranges size chunk offset overlap align.
+Proof. exact gen_source_is_model. Qed.
+Print Assumptions C09_chunk_ranges_source_is_model.
+
+(* so the source itself satisfies every clause, for all valid parameters *)
+Theorem C09_chunk_ranges_source_good :
+  forall size chunk offset overlap align,
+    valid_ranges_params size chunk offset overlap = true ->
+    exists rs,
+      run_generator (fuel_for size) gen_chunk_ranges_prog (env0 size chunk offset overlap align) = Ok rs
+      /\ ranges_good size chunk offset overlap align rs.
+Proof. exact gen_source_good. Qed.
+Print Assumptions C09_chunk_ranges_source_good.
+
+Example C09_chunk_ranges_source_ex :
+  run_generator (fuel_for 15) gen_chunk_ranges_prog (env0 15 5 3 1 true)
+  = Ok [(3, 5); (4, 9); (8, 13); (12, 17); (16, 18)]%Z.
+Proof. reflexivity. Qed.
